@@ -4,6 +4,7 @@
 import OlVerif.Assign.Unpack
 import OlVerif.Gen.Dispatch
 import OlVerif.Lower.Stmt
+import OlVerif.Lower.WfOut
 
 namespace OlVerif.C13
 
@@ -95,5 +96,47 @@ theorem dunder_table (op : BinOpK) : genAugOpName op = refInplaceName op := by
 /-- the model of the lowering uses the same table -/
 theorem model_uses_table (op : BinOpK) : augOpName op = genAugOpName op := by
   cases op <;> decide
+
+
+/-! ### augmented assignment: one load, one call of the operator function, one store -/
+
+/-- name target: the name is stored once, and what is stored is `operator.i<op>(name, value)` -/
+theorem aug_name_single_store (n : Nsp) (x : String) (op : BinOpK) (value : Expr) (st : St)
+    (es : List Expr) (st' : St) (h : lowerAugAssign n (.name x) op value st = .ok (es, st')) :
+    ∃ v t r, transf n [] value = .ok v ∧ n.getLoad [] x = .ok t ∧
+      n.getAssign x (augAssignExpr t op v) = .ok r ∧ es = [r] := by
+  simp only [lowerAugAssign] at h
+  obtain ⟨v, hv, h⟩ := bind_ok h
+  obtain ⟨t, ht, h⟩ := bind_ok h
+  obtain ⟨r, hr, h⟩ := bind_ok h
+  cases pure_ok h
+  exact ⟨v, t, r, hv, ht, hr, rfl⟩
+
+/-- attribute target: the object is evaluated once into a temporary, the attribute is loaded once
+    from it, and one `setattr` on the same temporary stores `operator.i<op>(loaded, value)` -/
+theorem aug_attr_single_store (n : Nsp) (o : Expr) (a : String) (op : BinOpK) (value : Expr) (st : St)
+    (es : List Expr) (st' : St) (h : lowerAugAssign n (.attribute o a) op value st = .ok (es, st')) :
+    ∃ v p obj tmp, transf n [] value = .ok v ∧ transf n [] o = .ok p ∧
+      es = [.namedExpr obj p, .namedExpr tmp (.attribute (.name obj) a),
+            .call (.name "setattr") [.name obj, Expr.str a, augAssignExpr (.name tmp) op v] []] := by
+  simp only [lowerAugAssign] at h
+  obtain ⟨v, hv, h⟩ := bind_ok h
+  obtain ⟨p, hp, h⟩ := bind_ok h
+  cases pure_ok h
+  exact ⟨v, p, _, _, hv, hp, rfl⟩
+
+/-- subscript target: object and index are evaluated once each into temporaries, the item is loaded
+    once, and one `__setitem__` with the same object and index stores `operator.i<op>(loaded, value)` -/
+theorem aug_sub_single_store (n : Nsp) (o i : Expr) (op : BinOpK) (value : Expr) (st : St)
+    (es : List Expr) (st' : St) (h : lowerAugAssign n (.subscript o i) op value st = .ok (es, st')) :
+    ∃ v p ix obj sl tmp, transf n [] value = .ok v ∧ transf n [] o = .ok p ∧ transf n [] i = .ok ix ∧
+      es = [.namedExpr obj p, .namedExpr sl (convertIndex ix), .namedExpr tmp (.subscript (.name obj) (.name sl)),
+            .call (.attribute (.name obj) "__setitem__") [.name sl, augAssignExpr (.name tmp) op v] []] := by
+  simp only [lowerAugAssign] at h
+  obtain ⟨v, hv, h⟩ := bind_ok h
+  obtain ⟨p, hp, h⟩ := bind_ok h
+  obtain ⟨ix, hix, h⟩ := bind_ok h
+  cases pure_ok h
+  exact ⟨v, p, ix, _, _, _, hv, hp, hix, rfl⟩
 
 end OlVerif.C13
